@@ -130,6 +130,13 @@ def run_case(case, world):
     pool = []           # (engine item, model Fn, ptypes)
 
     def violate(cls, what, detail, flags, extra=()):
+        if ('unneeded-key-error' in flags or 'unneeded-argument-error' in flags) and 'engine-error' in extra \
+                and 'non-ep-exception' not in extra:
+            # the model left an erroneous sort key function uncalled because nothing had to be compared, or the second
+            # sequence of for-each-pair unevaluated because the first is empty; an engine that reports the error is
+            # right too
+            stats['unneeded_key_errors_raised'] = stats.get('unneeded_key_errors_raised', 0) + 1
+            return
         sig = '%s:%s|%s' % (cls.lower(), what, ','.join(sorted(flags)))
         violations.append({'cls': cls, 'signature': sig, 'sig_base': what, 'flags': sorted(flags), 'detail': detail,
                            'features': sorted(set(flags) | set(extra) | {'op:' + what}) + (
